@@ -11,10 +11,10 @@ git -C /repo worktree add -q --detach "$WT" HEAD || exit 2
 trap 'git -C /repo worktree remove --force "$WT" >/dev/null 2>&1; rm -rf "$OUT"' EXIT
 (cd "$WT" && git apply "$P") || exit 2
 mkdir -p "$OUT/evidence" "$OUT/replays"
-export CARGO_TARGET_DIR=/tmp/seedtarget
+export CARGO_TARGET_DIR=${SEEDTARGET:-/tmp/seedtarget}
 (cd /verif/harness && cargo build --release --offline --config "paths=[\"$WT/marwood\"]" 2>&1 | grep -E "^error" -A8)
 for id in "$@"; do
-  out=$(MWMC_OUT_ROOT="$OUT" /tmp/seedtarget/release/mwmc "$id" --tier quick 2>&1); code=$?
+  out=$(MWMC_OUT_ROOT="$OUT" ${SEEDTARGET:-/tmp/seedtarget}/release/mwmc "$id" --tier quick 2>&1); code=$?
   echo "$id exit=$code $(echo "$out" | grep -c '^VIOLATION') VIOLATION line(s); $(echo "$out" | tail -1 | cut -c1-160)"
   echo "$out" | grep -A1 '^VIOLATION' | head -6
 done
